@@ -332,6 +332,10 @@ func (s *Sorter) SortedBlocks(ctx context.Context, removedCols map[int]struct{},
 				if s.profiler != nil {
 					s.profiler.Process(row)
 				}
+				if m == 0 {
+					blkPK = blkPK[:len(pkIndices)]
+					copy(blkPK, rowPK)
+				}
 			}
 
 			if minInd < n {
@@ -339,10 +343,6 @@ func (s *Sorter) SortedBlocks(ctx context.Context, removedCols map[int]struct{},
 			} else {
 				s.current = s.current[1:]
 				currentBlock = nil
-			}
-			if len(blkPK) == 0 {
-				blkPK = blkPK[:len(pkIndices)]
-				copy(blkPK, rowPK)
 			}
 			if len(blk) == 255 {
 				b := &Block{
